@@ -1,6 +1,7 @@
 package sim
 
 import (
+	"context"
 	"fmt"
 	"runtime/debug"
 	"strings"
@@ -67,6 +68,66 @@ type Sim struct {
 	Deadlock      string
 	blockedStreak int
 	blockedSites  []string
+
+	// callbacks the library registered with context.AfterFunc (rewritten to the hook): each runs,
+	// atomically, at a yield point the tape chooses after its context was cancelled
+	after     []*afterEntry
+	inAfter   bool
+	AfterRuns int
+}
+
+type afterEntry struct {
+	ctx     context.Context
+	f       func()
+	stopped bool
+	fired   bool
+	delay   int // yield points still to pass after the cancellation was seen; -1 = not seen yet
+}
+
+// afterFunc is context.AfterFunc under the simulator: no goroutine is started.
+//
+//go:norace
+func (s *Sim) afterFunc(ctx context.Context, f func()) (stop func() bool) {
+	e := &afterEntry{ctx: ctx, f: f, delay: -1}
+	s.after = append(s.after, e)
+	return func() bool {
+		if e.fired || e.stopped {
+			return false
+		}
+		e.stopped = true
+		return true
+	}
+}
+
+//go:norace
+func (s *Sim) runAfter() {
+	if s.inAfter {
+		return
+	}
+	s.inAfter = true
+	defer func() { s.inAfter = false }()
+	live := s.after[:0]
+	for _, e := range s.after {
+		if e.stopped || e.fired {
+			continue
+		}
+		if e.delay < 0 {
+			if e.ctx.Err() == nil {
+				live = append(live, e)
+				continue
+			}
+			e.delay = s.T.Choice(6, "afterfunc.delay")
+		}
+		if e.delay > 0 {
+			e.delay--
+			live = append(live, e)
+			continue
+		}
+		e.fired = true
+		s.AfterRuns++
+		e.f()
+	}
+	s.after = live
 }
 
 // LivelockOutside is the panic raised when code running outside the scheduler (a set-up or a
@@ -92,6 +153,7 @@ func (d Deadlocked) Error() string {
 func NewSim(t *Tape, b Baton) *Sim {
 	s := &Sim{T: t, B: b, MaxSteps: 200000, Log: NewLog(), MaxQ: 6, IHash: 1469598103934665603}
 	zzsimhook.ResetPools() // object pools of the instrumented library start every run empty
+	zzsimhook.AfterFuncHook = s.afterFunc
 	s.sslot = b.NewSlot()
 	return s
 }
@@ -205,6 +267,12 @@ func (s *Sim) Yield(site string) { s.yield(site, false) }
 //go:norace
 func (s *Sim) yield(site string, blocked bool) {
 	s.Seq++
+	if s.inAfter {
+		return // inside a cancellation callback: it runs as one step
+	}
+	if len(s.after) > 0 {
+		s.runAfter()
+	}
 	t := s.cur
 	if !blocked {
 		s.blockedStreak, s.blockedSites = 0, s.blockedSites[:0]
